@@ -86,7 +86,16 @@ pub type HMap = Map<Seq<char>, Seq<http::header::HeaderValue>>;
 // specification fixes "the last value received" so that sig_input_spec is a total function; lemma_canon_h_single_valued
 // shows that for single-valued maps the choice is immaterial.
 pub open spec fn signed_value(vals: Seq<http::header::HeaderValue>) -> http::header::HeaderValue { vals.last() }
+// The text of a header value that enters the canonical string: the value's bytes read as text. For a visible-ASCII value
+// (every case the statement documents) this is hv_view(v), the text HeaderValue::to_str yields (axiom_hv_text_visible_ascii);
+// for a value with other bytes it is the lossy UTF-8 reading of the bytes (String::from_utf8_lossy), which is what the
+// agent signs since fix F6e -- the host's rule for such bytes is not documented.
+pub open spec fn hv_text(v: http::header::HeaderValue) -> Seq<char> { utf8_lossy(hv_bytes(v)) }
 pub open spec fn header_line(n: Seq<char>, v: http::header::HeaderValue) -> Seq<char> {
+    lower(n) + ":"@ + trim(hv_text(v)) + lf()
+}
+// the same with the exact text of a visible-ASCII value
+pub open spec fn header_line_exact(n: Seq<char>, v: http::header::HeaderValue) -> Seq<char> {
     lower(n) + ":"@ + trim(hv_view(v)) + lf()
 }
 // header names other than the authorization header
@@ -97,6 +106,13 @@ pub open spec fn header_lines(ks: Seq<Seq<char>>, hm: HMap) -> Seq<char>
     if ks.len() == 0 { Seq::<char>::empty() } else { header_lines(ks.drop_last(), hm) + header_line(ks.last(), signed_value(hm[ks.last()])) }
 }
 pub open spec fn canon_h(hm: HMap) -> Seq<char> { header_lines(sorted_names(signed_names(hm)), hm) }
+pub open spec fn header_lines_exact(ks: Seq<Seq<char>>, hm: HMap) -> Seq<char>
+    decreases ks.len()
+{
+    if ks.len() == 0 { Seq::<char>::empty() } else { header_lines_exact(ks.drop_last(), hm) + header_line_exact(ks.last(), signed_value(hm[ks.last()])) }
+}
+// canonicalized headers of a request whose header values are all visible ASCII: lower(name) ":" trim(value) LF per name
+pub open spec fn canon_h_exact(hm: HMap) -> Seq<char> { header_lines_exact(sorted_names(signed_names(hm)), hm) }
 
 // ASCII lower-casing (str::eq_ignore_ascii_case compares to_ascii_lowercase of both sides)
 pub open spec fn ascii_lower_char(c: char) -> char { if 'A' <= c && c <= 'Z' { ((c as u8) + 32u8) as char } else { c } }
@@ -543,4 +559,31 @@ pub proof fn lemma_f4_witness_spec_distinguishes_colliding_requests()
     assert(sort_pairs(s1) =~= s1) by { assert(insert_sorted(e, p2) =~= seq![p2]); }
     assert(segments(s1) =~= seq![segment(p2)]);
     assert(join_amp(segments(s1)) =~= "ab"@);
+}
+
+// for header maps whose values are all visible ASCII, canon_h is exactly lower(name) ":" trim(value) LF per name
+pub proof fn lemma_header_lines_exact(ks: Seq<Seq<char>>, hm: HMap)
+    requires all_values_visible_ascii(hm), forall|i: int| 0 <= i < ks.len() ==> hm.contains_key(#[trigger] ks[i]) && hm[ks[i]].len() > 0,
+    ensures header_lines(ks, hm) == header_lines_exact(ks, hm),
+    decreases ks.len()
+{
+    broadcast use axiom_hv_text_visible_ascii;
+    if ks.len() > 0 {
+        assert forall|i: int| 0 <= i < ks.drop_last().len() implies hm.contains_key(#[trigger] ks.drop_last()[i]) && hm[ks.drop_last()[i]].len() > 0 by { assert(ks.drop_last()[i] == ks[i]); }
+        lemma_header_lines_exact(ks.drop_last(), hm);
+        let n = ks[ks.len() - 1];
+        assert(hm.contains_key(n) && hm[n].len() > 0);
+        assert(hv_visible_ascii(hm[n][hm[n].len() - 1]));
+    }
+}
+pub proof fn lemma_canon_h_exact(hm: HMap)
+    requires all_values_visible_ascii(hm), forall|n: Seq<char>| hm.contains_key(n) ==> (#[trigger] hm[n]).len() > 0,
+    ensures canon_h(hm) == canon_h_exact(hm),
+{
+    let ks = sorted_names(signed_names(hm));
+    lemma_sorted_enum_exists(signed_names(hm));
+    assert forall|i: int| 0 <= i < ks.len() implies hm.contains_key(#[trigger] ks[i]) && hm[ks[i]].len() > 0 by {
+        assert(ks.to_set().contains(ks[i])); assert(signed_names(hm).contains(ks[i]));
+    }
+    lemma_header_lines_exact(ks, hm);
 }
